@@ -56,9 +56,18 @@ fn check_trace(trace: &[ReductionStep], n: usize, expected: &[(usize, usize, usi
             return Some(format!("step {k}: operator {} skipped a live operand on its right (took {})", s.op_idx, s.right_idx));
         }
         consumed[s.right_idx] = true;
-        if (s.op_idx, s.left_idx, s.right_idx) != expected[k] {
-            return Some(format!("step {k}: applied ({}, {}, {}), priorities impose {:?}", s.op_idx, s.left_idx, s.right_idx, expected[k]));
+        // The exact sequence of steps is not demanded (independent reductions may be done in
+        // any order); but every step must be one of the model's steps, i.e. the same operator
+        // must meet the same two operands as in the reduction the priorities impose.
+        if !expected.contains(&(s.op_idx, s.left_idx, s.right_idx)) {
+            return Some(format!("step {k}: operator {} applied to operands ({}, {}), which the priorities never bring together", s.op_idx, s.left_idx, s.right_idx));
         }
+    }
+    let mut seen_ops: Vec<usize> = trace.iter().map(|s| s.op_idx).collect();
+    seen_ops.sort();
+    seen_ops.dedup();
+    if seen_ops.len() != n - 1 {
+        return Some("an operator was applied twice or not at all".into());
     }
     if consumed[0] || consumed[1..].iter().any(|c| !c) {
         return Some("at the end not exactly operand 0 is live".into());
